@@ -57,14 +57,25 @@ def drop(wt):
 def one(e):
     c, prop = e["commit"], e["property"]
     rec = {"commit": c, "property": prop, "subject": e.get("subject", ""), "expected_mechanism": e.get("mechanism")}
+    props = [prop] + list(e.get("also_checked_by", []))
+    hand = os.path.join(ROOT, "seeded", "rev-" + c, "patch.diff")
     wt = worktree(c + "-head", "HEAD")
     try:
-        r = git("revert", "--no-commit", c, cwd=wt)
+        if os.path.exists(hand):
+            # the reversal re-made by hand on HEAD (git cannot revert it: CRLF file or later edits on the same lines)
+            r = subprocess.run(["patch", "-s", "-p1", "-d", wt, "-i", hand], capture_output=True, text=True)
+            how = "HEAD with the fix taken out by hand (seeded/rev-%s/patch.diff)" % c
+        else:
+            r = git("revert", "--no-commit", c, cwd=wt)
+            how = "HEAD with the fix reverted"
         if r.returncode == 0:
-            verdict, counts = run_check(prop, wt, c + "-head")
-            rec.update(how="HEAD with the fix reverted", verdict=verdict, mechanisms=sorted(counts)[:10],
-                       caught=verdict == "VIOLATION")
-            if rec["caught"] or verdict == "inconclusive":
+            for pr in props:
+                verdict, counts = run_check(pr, wt, c + "-head")
+                if verdict == "VIOLATION":
+                    rec.update(how=how, verdict=verdict, mechanisms=sorted(counts)[:10], caught=True, caught_by=pr)
+                    return rec
+            rec.update(how=how, verdict=verdict, mechanisms=[], caught=False)
+            if verdict == "inconclusive":
                 return rec
             rec["head_revert_note"] = "check held on HEAD minus this fix (a later fix may cover the same input); historical pair used"
         else:
@@ -84,7 +95,8 @@ def one(e):
     gone = sorted(m for m in c0 if m not in c1)
     fell = sorted(m for m in c0 if m in c1 and c0[m] >= 5 * max(1, c1[m]))
     rec.update(how="tree before the fix vs tree with it", verdict="%s -> %s" % (v0, v1),
-               mechanisms=(gone + ["%s (%d -> %d)" % (m, c0[m], c1[m]) for m in fell])[:10], caught=bool(gone or fell) and v0 == "VIOLATION")
+               mechanisms=(gone + ["%s (%d -> %d)" % (m, c0[m], c1[m]) for m in fell])[:10], caught=bool(gone or fell) and v0 == "VIOLATION",
+               caught_by=prop)
     return rec
 
 
